@@ -230,6 +230,17 @@ theorem C06_real_text_parsed_by_float (g : GText) (h : g.isRealValue = true) (b 
   have := unpackNumeric_realValue g h (some b)
   simpa using this
 
+/-- unpack_numeric never lets an OverflowError escape (text 'INF' for an integer type, an integer beyond the float
+    range for a real type): after /repo fix 9123e9a the constructor's ValueError *and* OverflowError become
+    CIMXMLParseError.  (ValueError / TypeError remain in the statement only because the hexadecimal branch and the
+    constructor are not shown here to be unable to raise them for int / float arguments.) -/
+theorem C06_unpack_numeric_no_overflow_leak (pf : Option Nat) (data : List Char) (t : NumTy) (e : PyExc)
+    (h : unpackNumeric pf data t = .error e) : e = .cimXmlParseError ∨ e = .valueError ∨ e = .typeError :=
+  unp_no_ovf pf data t e h
+
+example : unpackNumeric (some 0x7FF0000000000000) "inf".toList (.int .uint8) = .error .cimXmlParseError := by decide
+example : unpackNumeric (some 0x400D99999999999A) "3.7".toList (.int .uint8) = .ok (.cimInt .uint8 3) := by decide
+
 /-- **written and read back**: the text atomic_to_cim_xml produces for a finite real, given to unpack_numeric with
     the codec's own float(), yields a Real64 object with the same bits (same RealCodec hypotheses) -/
 theorem C06_real_xml_roundtrip (R : RealCodec) (x : Nat) (hx : R.finite x = true) :
